@@ -231,7 +231,7 @@ func SliceArgs(content string) (expr string, err error) {
 		return false
 	})
 
-	return src[from:to], err
+	return strings.TrimRight(src[from:to], " \t"), err
 }
 
 // Func returns the Go code up to the opening brace of the function body.
